@@ -83,6 +83,8 @@ def norm_elem(v, kind):
         if isinstance(v, (int, float)):
             if v != v:
                 return SV(z3.RealVal(0), True)
+            if v in (float("inf"), float("-inf")):
+                return v            # kept as the Python float: any arithmetic on it is Unsupported, concrete numpy calls see it as inf
             return SV(z3.ToReal(to_z3(v)) if isinstance(v, int) else to_z3(v))
         import fractions
         if isinstance(v, fractions.Fraction):
@@ -333,6 +335,12 @@ class Numpy:
         except Exception:
             pass
         try:
+            import scipy.signal as _sig
+            T[_sig.lfiltic] = self.sp_lfiltic
+            T[_sig.lfilter] = self.sp_lfilter
+        except Exception:
+            pass
+        try:
             import daqp as _daqp
             T[_daqp.solve] = self.daqp_solve
         except Exception:      # the solver is an optional dependency of the package under analysis
@@ -340,6 +348,41 @@ class Numpy:
         T[np.matmul] = lambda I, a, k, n: self.matmul(I, a[0], a[1], n)
         lib.extra_getattr.append(self.getattr)
         lib.numpy = self
+
+    def try_native(self, I, arr):
+        """A model array whose shape and cells are all concrete (numerals, concrete NaN flags, +-inf) as a numpy array;
+        None when anything in it is symbolic.  Used to run UNMODELLED numpy functions natively on concrete data."""
+        import itertools
+        from .interp import nan_of
+        np = self.np
+        if not all(isinstance(d, int) for d in arr.shape):
+            return None
+        out = np.empty(arr.shape, dtype={"bool": bool, "int": np.int64}.get(arr.kind, np.float64))
+        for idx in itertools.product(*[range(d) for d in arr.shape]):
+            e = arr.get(*[z3.IntVal(i) for i in idx])
+            if isinstance(e, SV):
+                nn = nan_of(e)
+                if nn is not None:
+                    nn = z3.simplify(nn)
+                    if z3.is_true(nn):
+                        out[idx] = np.nan
+                        continue
+                    if not z3.is_false(nn):
+                        return None
+                t = z3.simplify(e.t)
+                if z3.is_true(t) or z3.is_false(t):
+                    out[idx] = z3.is_true(t)
+                elif z3.is_int_value(t):
+                    out[idx] = t.as_long()
+                elif z3.is_rational_value(t):
+                    out[idx] = t.numerator_as_long() / t.denominator_as_long()
+                else:
+                    return None
+            elif isinstance(e, (bool, int, float)):
+                out[idx] = e
+            else:
+                return None
+        return out
 
     # ------------------------------------------------------------------ helpers
     def note(self, I):
@@ -899,7 +942,13 @@ class Numpy:
             last = a0 + (ln - 1) * step
             I.require("IndexError", z3.Or(ln <= 0, z3.And(a0 >= -n, a0 < n, last >= -n, last < n)), node)
         else:
-            raise Unsupported("fancy index of symbolic length that is not affine")
+            # neither concrete nor affine: the bound has to hold for EVERY position, which cannot be split into a raising and
+            # a non-raising path on a formula with a quantified position - it is accepted only when it is entailed outright
+            k = z3.Int(I.ctx.fresh_name("k!bound"))
+            ln = zint(seq.length)
+            p = seq.at(k)
+            if not I.ctx.entails(z3.Implies(z3.And(k >= 0, k < ln), z3.And(p >= -n, p < n))):
+                raise Unsupported("fancy index of symbolic length that is not affine and not provably inside the array")
 
     def basic_index(self, I, a, parts, node):
         axes = list(a.axes)
@@ -2172,6 +2221,48 @@ class Numpy:
             reg = I.ctx.lyaps = []
         reg.append((Al, Ql, X))
         return self.from_nested(I, X, "float", (m, m))
+
+    def sp_lfiltic(self, I, a, k, n):
+        """ASSUMED CONTRACT (with sp_lfilter) of scipy.signal.lfiltic(b, a, y) for b == (1,): an opaque initial state that
+        stands for the past outputs y[-1], y[-2], ... = y[0], y[1], ..."""
+        from .values import LibObj
+        I.ctx.note_assumption("scipy.signal.lfiltic/lfilter with b=(1,): assumed contract - y[t] = (x[t] - sum_k a[k] y[t-k]) / a[0], "
+                              "past outputs taken from the initial conditions, most recent first (reals)")
+        b = [v for v in I.iterate(a[0], n)]
+        if len(b) != 1 or not (isinstance(b[0], int) and b[0] == 1):
+            raise Unsupported("lfiltic with a moving-average part")
+        if len(a) > 3 or k:
+            raise Unsupported("lfiltic with past inputs")
+        ar = [v for v in I.iterate(a[1], n)]
+        _, past = self.dense(I, a[2], "lfiltic")
+        if len(past) < len(ar) - 1:
+            raise Unsupported("lfiltic with fewer initial conditions than the order")
+        return LibObj("lfilter_state", ar=ar, past=list(past))
+
+    def sp_lfilter(self, I, a, k, n):
+        """ASSUMED CONTRACT of scipy.signal.lfilter(b=(1,), a, x, zi=<state from lfiltic with the same a>, axis=0) on a 1-d x
+        of concrete length: returns (y, zf) with  a[0] y[t] + a[1] y[t-1] + ... + a[p] y[t-p] == x[t],  t = 0..T-1."""
+        from .values import LibObj
+        zi = k.get("zi")
+        if not (isinstance(zi, LibObj) and zi.kind == "lfilter_state") or k.get("axis", 0) not in (0, -1) or len(a) != 3:
+            raise Unsupported("lfilter outside the modelled use (b=(1,), zi from lfiltic)")
+        b = [v for v in I.iterate(a[0], n)]
+        ar = [v for v in I.iterate(a[1], n)]
+        if len(b) != 1 or not (isinstance(b[0], int) and b[0] == 1) or len(ar) != len(zi.fields["ar"]):
+            raise Unsupported("lfilter outside the modelled use (b=(1,), zi from lfiltic)")
+        xa, xl = self.dense(I, a[2], "lfilter")
+        if xa.ndim != 1:
+            raise Unsupported("lfilter on an array that is not 1-d")
+        hist = list(zi.fields["past"])          # y[-1], y[-2], ...
+        out = []
+        for t in range(len(xl)):
+            acc = xl[t]
+            for j in range(1, len(ar)):
+                acc = I.binop("-", acc, I.binop("*", ar[j], hist[j - 1], n), n)
+            y = I.binop("/", acc, ar[0], n) if not (isinstance(ar[0], int) and ar[0] == 1) else acc
+            out.append(y)
+            hist.insert(0, y)
+        return (self.from_nested(I, out, "float", (len(out),)), LibObj("lfilter_state", ar=ar, past=hist))
 
     def daqp_solve(self, I, a, k, n):
         """ASSUMED CONTRACT of daqp.solve(H, f, A, bupper, blower, sense) (a C active-set solver, outside the verifier's
